@@ -183,7 +183,7 @@ def _work(args):
             if 'call' in ops:
                 obs += case.obligations_call()
                 out['paths']['wrapper'] = case.paths_call
-                if tier == 'thorough' and prop in ('C01', 'C05', 'C16'):
+                if (tier == 'thorough' and prop in ('C01', 'C05', 'C16')) or (prop == 'C05' and os.environ.get('PYVC_REENTRANT_QUICK', '1') == '1'):
                     # re-entrancy tier: the user function may call the decorated function again (memoised recursion)
                     obs += W.obligations_call_reentrant(case)
             if 'key' in ops:
